@@ -5,6 +5,8 @@ package main
 import (
 	"bytes"
 	"fmt"
+	"os"
+	"time"
 
 	. "verifharness/hlib"
 
@@ -621,22 +623,39 @@ func restartCase(e *env, first, impl string) {
 	}
 
 	readAll := func(phase string, full bool) {
+		t0 := time.Now()
+		defer func() {
+			if os.Getenv("FRONT_TIMING") != "" {
+				fmt.Fprintf(os.Stderr, "TIMING readAll %s: %v\n", phase, time.Since(t0))
+			}
+		}()
 		c.f = cur
 		c.texts = append(c.texts, "== "+phase+" ("+cur.mode+")")
 		for i, b := range blobs {
 			n := int64(len(b.data))
-			c.batchRead(e, r, b, false, true)
-			c.batchRead(e, r, b, true, true)
-			c.httpGet(e, b, (i+len(c.ops))%2 == 0, true)
 			offs := []int64{0, 1, n / 2, n - 1, n}
 			if n > 1<<20 {
 				offs = []int64{0, 1, 500000 + int64(r.Intn(1000)), 1 << 20, 1<<20 - 1, n - 1, n}
 			}
 			if !full {
-				offs = []int64{offs[r.Intn(len(offs)-1)]}
-			} else {
-				c.httpGet(e, b, (i+len(c.ops))%2 == 1, true)
-				c.head(e, b, true)
+				// light: one buffering read and one streaming read per blob, alternating encodings
+				zb := (i+len(c.ops))%2 == 0
+				c.batchRead(e, r, b, zb, true)
+				if off := offs[r.Intn(len(offs)-1)]; off >= 0 && off < n {
+					c.bsRead(e, b, !zb, off, 0, true)
+				} else {
+					c.httpGet(e, b, !zb, true)
+				}
+				continue
+			}
+			c.batchRead(e, r, b, false, true)
+			c.batchRead(e, r, b, true, true)
+			c.httpGet(e, b, false, true)
+			c.httpGet(e, b, true, true)
+			c.head(e, b, true)
+			if n != 4096 && n <= 1<<20 {
+				// every offset class for the chunk-sized and the multi-chunk blob, two for the others
+				offs = []int64{offs[r.Intn(2)], offs[2+r.Intn(3)]}
 			}
 			for _, off := range offs {
 				if off < 0 {
@@ -679,6 +698,12 @@ func restartCase(e *env, first, impl string) {
 		c.texts = append(c.texts, fmt.Sprintf("GetTree -> %s %d dirs; GetActionResult(inline all) -> %s", st, len(dirs), ast))
 	}
 	restart := func(mode string) {
+		t0 := time.Now()
+		defer func() {
+			if os.Getenv("FRONT_TIMING") != "" {
+				fmt.Fprintf(os.Stderr, "TIMING restart: %v\n", time.Since(t0))
+			}
+		}()
 		cur.shutdown()
 		cur = newFixtureAt(cur.dir, mode, impl, bigLimit)
 		c.ops = append(c.ops, "FRestart "+CB(mode == "zstd"))
